@@ -3,6 +3,7 @@
 From Coq Require Import List Bool Arith.
 Import ListNotations.
 Require Import EV.model.Exec EV.proofs.ExecP EV.gen.Facts.
+Require EV.model.ExecRel EV.proofs.ExecRelP.
 
 Definition exec_cfg : ecfg := {| set_on_error := exec_sets_complete_always; set_on_interrupt := exec_sets_complete_always |}.
 Lemma C14_cfg_ok : schedulexec_shape_ok = true /\ ecfg_ok exec_cfg.
@@ -35,3 +36,36 @@ Theorem C14_original_refuted :
   log (erun c [LSubmit; LRecvBegin; LRecvOk; LPick; LFinish; LClose; LSubmit; LRecvBegin; LRecvTimeout] (einit [ORaise; ORet]))
   = [Deadlock 1; Closed 0; Started 0].
 Proof. exact original_false_deadlock. Qed.
+
+(* ---- the same machine with RELEASE (model/ExecRel.v): a blocked body can be let go by the initiator and then ends like a returning
+   one; any history, any interleaving of submissions, releases, the receiver thread and the main thread ---- *)
+Definition exec_cfg_rel : ExecRel.ecfg := {| ExecRel.set_on_error := exec_sets_complete_always; ExecRel.set_on_interrupt := exec_sets_complete_always |}.
+Lemma C14_rel_cfg_ok : ExecRelP.ecfg_ok exec_cfg_rel.
+Proof. split; reflexivity. Qed.
+
+(* whenever request k was refused with the deadlock error, an EARLIER blocked body had been started and had not yet closed its channel
+   at that moment (l2 = everything that had happened until then) -- also when that body is released and ends later *)
+Theorem C14_no_false_deadlock_with_release : forall p ls l1 l2 k,
+  ExecRel.log (ExecRel.erun exec_cfg_rel ls (ExecRel.einit p)) = l1 ++ ExecRel.Deadlock k :: l2 ->
+  exists j, j < k /\ nth_error (ExecRel.prog (ExecRel.erun exec_cfg_rel ls (ExecRel.einit p))) j = Some ExecRel.OBlock /\
+            In (ExecRel.Started j) l2 /\ ~ In (ExecRel.Closed j) l2.
+Proof. exact (ExecRelP.no_false_deadlock exec_cfg_rel C14_rel_cfg_ok). Qed.
+Print Assumptions C14_no_false_deadlock_with_release.
+
+(* a request that is handled after every body started so far has closed its channel is never refused *)
+Theorem C14_no_deadlock_after_all_closed : forall p ls l1 l2 k,
+  ExecRel.log (ExecRel.erun exec_cfg_rel ls (ExecRel.einit p)) = l1 ++ ExecRel.Deadlock k :: l2 ->
+  (forall j, In (ExecRel.Started j) l2 -> In (ExecRel.Closed j) l2) -> False.
+Proof. exact (ExecRelP.no_deadlock_after_all_closed exec_cfg_rel C14_rel_cfg_ok). Qed.
+Print Assumptions C14_no_deadlock_after_all_closed.
+
+Theorem C14_in_order_with_release : forall p ls, ExecRelP.ordered (ExecRel.log (ExecRel.erun exec_cfg_rel ls (ExecRel.einit p))).
+Proof. exact (ExecRelP.started_in_order exec_cfg_rel C14_rel_cfg_ok). Qed.
+Print Assumptions C14_in_order_with_release.
+
+Example C14_release_witness :
+  let s := ExecRel.erun exec_cfg_rel [ExecRel.LSubmit; ExecRel.LRecvBegin; ExecRel.LRecvOk; ExecRel.LPick; ExecRel.LSubmit; ExecRel.LRecvBegin; ExecRel.LRecvTimeout;
+     ExecRel.LRelease 0; ExecRel.LFinish; ExecRel.LClose; ExecRel.LSet; ExecRel.LSubmit; ExecRel.LRecvBegin; ExecRel.LRecvOk; ExecRel.LPick; ExecRel.LFinish; ExecRel.LClose; ExecRel.LSet]
+     (ExecRel.einit [ExecRel.OBlock; ExecRel.ORet; ExecRel.ORaise]) in
+  ExecRel.log s = [ExecRel.Closed 2; ExecRel.Started 2; ExecRel.Closed 0; ExecRel.Deadlock 1; ExecRel.Started 0].
+Proof. vm_compute. reflexivity. Qed.
